@@ -81,6 +81,25 @@ class SetTypes:
                 changed = True
         return names
 
+    def _is_view(self, e, depth=0):
+        """e is a dict view: d.keys() / d.items(), or a call of a project function all of whose returns are views."""
+        if not isinstance(e, ast.Call):
+            return False
+        f = e.func
+        if isinstance(f, ast.Attribute) and f.attr in ("keys", "items") and not e.args:
+            return True
+        name = f.attr if isinstance(f, ast.Attribute) else f.id if isinstance(f, ast.Name) else None
+        if name is None or depth > 2:
+            return False
+        cands = [g for g in self.p.functions.values() if g.name == name]
+        if not cands:
+            return False
+        for g in cands:
+            rets = [n for n in ast.walk(g.node) if isinstance(n, ast.Return) and n.value is not None]
+            if not rets or not all(self._is_view(r.value, depth + 1) for r in rets):
+                return False
+        return True
+
     def is_set_expr(self, e, names, cls_attrs):
         if isinstance(e, (ast.Set, ast.SetComp)):
             return True
@@ -98,7 +117,9 @@ class SetTypes:
                 return self.is_set_expr(f.value, names, cls_attrs)
             return False
         if isinstance(e, ast.BinOp) and isinstance(e.op, (ast.BitOr, ast.BitAnd, ast.Sub, ast.BitXor)):
-            return self.is_set_expr(e.left, names, cls_attrs) or self.is_set_expr(e.right, names, cls_attrs)
+            # set algebra on dict views (d.keys() | e.keys(), also through a getter that returns a view) yields a set as well
+            return self.is_set_expr(e.left, names, cls_attrs) or self.is_set_expr(e.right, names, cls_attrs) \
+                or self._is_view(e.left) or self._is_view(e.right)
         if isinstance(e, ast.IfExp):
             return self.is_set_expr(e.body, names, cls_attrs) and self.is_set_expr(e.orelse, names, cls_attrs)
         return False
